@@ -747,6 +747,15 @@ func (sc *SpecCtx) call(x *SX) Val {
 			return Val{Ty: strTy, T: app("String", "hexOf", vc.toInt(v))}
 		}
 		return Val{Ty: strTy, T: itoaTerm(vc.toInt(v))}
+	case "uvarintLen", "zigzag":
+		// uvarintLen(x): number of bytes of the base-128 varint of x (0 <= x < 2^64);
+		// zigzag(i): the unsigned image 2i (i >= 0) / -2i-1 (i < 0) that signed varints encode
+		need(1)
+		v := vc.toInt(sc.eval(args[0]))
+		if name == "zigzag" {
+			return Val{Ty: specInt, T: ite(ge(v, intLit(0)), mul(intLit(2), v), sub(mul(intLit(-2), v), intLit(1)))}
+		}
+		return Val{Ty: specInt, T: uvarintLenTerm(v)}
 	case "deref":
 		// deref(p): the value stored in the cell p points to (p a pointer to a non-struct)
 		need(1)
